@@ -55,6 +55,22 @@ type caseCtx struct {
 	hintS    []ksEntry            // key set handed to op.WithIDTokenHintKeySet (nil = not configured)
 	foreign  map[string][]ksEntry // the key sets that are NOT this verifier's trust set, by name
 	signedBy string               // which set the base signer was drawn from
+
+	// op-jwt-assertion only: the life time of the verifier OBJECT. "per-call" builds one for every presentation (what
+	// Provider.JWTProfileVerifier does); "per-case" / "per-worker" keep one *op.JWTProfileVerifier, as an application
+	// holding the result of op.NewJWTProfileVerifier does, and present the genuine assertion of another registered
+	// client (pred) to that same object before this case's issuer is seen. The trust set stays the keys of the
+	// client named in iss of the assertion at hand, whatever the object has verified before.
+	vlife string    // per-call, per-case, per-worker
+	pred  string    // client whose genuine assertion the kept verifier object verifies first
+	predS []ksEntry // keys registered for pred (never keys of who)
+
+	// rp-remote only: how the verifier is obtained. "direct" = rp.NewIDTokenVerifier over rp.NewRemoteKeySet;
+	// "relying-party+verifier-opts" = rp.NewRelyingPartyOIDC(..., rp.WithVerifierOpts(allow-list)).IDTokenVerifier();
+	// "relying-party+discovery-algs" = rp.NewRelyingPartyOIDC(..., rp.WithSigningAlgsFromDiscovery()) against a provider
+	// whose discovery document announces exactly the allow-list. The allowed list is c.A in all three.
+	route      string
+	routeOrder int // position of rp.WithSigningAlgsFromDiscovery among the options (0 = first, 1 = last)
 }
 
 type presented struct {
